@@ -169,6 +169,12 @@ def run_geom_case(ctx, case):
             oy = offs[int(rng.integers(0, len(offs)))] if rng.random() < 0.6 else \
                 float(rng.uniform(-0.5, 0.5))
             pts.append((cx + ox * csz, cy + oy * csz))
+    # coordinates that are exactly zero, first in the batch (the equator, a local datum),
+    # then repeated: wherever the grid sits, zero is a coordinate like any other
+    if len(pts) and seed % 2:
+        x0, y0 = pts[0]
+        pts = [(x0, 0.0), (x0, -0.0), (0.0, y0), (0.0, 0.0), (x0, 0.0)] + pts
+        ctx.tag("points:zero-coordinate-first")
     pts = np.array(pts, dtype=float).reshape((-1, 2))
     got = gr.coord2cell(pts)
     njudged = 0
